@@ -721,23 +721,21 @@ class MessageType:
         # kingdoms/{kingdom}/phyla/{phylum}
         # becomes the regex
         # ^kingdoms/(?P<kingdom>.+?)/phyla/(?P<phylum>.+?)$
-        parsing_regex_str = (
-            "^"
-            + self.PATH_ARG_RE.sub(
-                # We can't just use (?P<name>[^/]+) because segments may be
-                # separated by delimiters other than '/'.
-                # Multiple delimiter characters within one schema are allowed,
-                # e.g.
-                # as/{a}-{b}/cs/{c}%{d}_{e}
-                # This is discouraged but permitted by AIP4231
-                lambda m: "(?P<{name}>.+?)".format(name=m.groups()[0]),
-                self.resource_path or "",
-            )
-            + "$"
-        )
-        # Special case for wildcard resource names
-        if parsing_regex_str == "^*$":
-            parsing_regex_str = "^.*$"
+        # The literal text between the variables is escaped so that separators
+        # such as "." only match themselves.
+        path = self.resource_path or ""
+        if path == "*":
+            # Special case for wildcard resource names
+            return "^.*$"
+
+        pieces = []
+        pos = 0
+        for m in self.PATH_ARG_RE.finditer(path):
+            pieces.append(re.escape(path[pos : m.start()]))
+            pieces.append("(?P<{name}>.+?)".format(name=m.groups()[0]))
+            pos = m.end()
+        pieces.append(re.escape(path[pos:]))
+        parsing_regex_str = "^" + "".join(pieces) + "$"
 
         return parsing_regex_str
 
